@@ -172,6 +172,319 @@ fn eq_clone(r: &mut Rep) {
     }
 }
 
+
+// ---------------------------------------------------------------------------------------------- register-allocation contexts
+// The port number and the value reach the `in`/`out` block in whatever registers the surrounding code left them. These
+// non-inlined call sites receive six integer arguments (rdi, rsi, rdx, rcx, r8, r9 in the System V ABI) and use argument
+// I as port number and argument J as value, keeping the others alive across the access, so that every pairing of incoming
+// registers - including value-in-rdx / port-in-rax-after-a-multiply - is exercised by the optimised builds.
+macro_rules! site_w {
+    ($name:ident, $ty:ty, $i:tt, $j:tt) => {
+        #[inline(never)]
+        fn $name(a: [u64; 0], a0: u64, a1: u64, a2: u64, a3: u64, a4: u64, a5: u64) -> u64 {
+            let _ = a;
+            let args = (a0, a1, a2, a3, a4, a5);
+            let mut p = Port::<$ty>::new(args.$i as u16);
+            unsafe { p.write(args.$j as $ty) };
+            a0 ^ a1.rotate_left(7) ^ a2.rotate_left(13) ^ a3.rotate_left(19) ^ a4.rotate_left(29) ^ a5.rotate_left(37)
+        }
+    };
+}
+macro_rules! site_r {
+    ($name:ident, $ty:ty, $i:tt) => {
+        #[inline(never)]
+        fn $name(a0: u64, a1: u64, a2: u64, a3: u64, a4: u64, a5: u64) -> (u64, u64) {
+            let args = (a0, a1, a2, a3, a4, a5);
+            let mut p = Port::<$ty>::new(args.$i as u16);
+            let v = unsafe { p.read() } as u64;
+            (v, a0 ^ a1.rotate_left(7) ^ a2.rotate_left(13) ^ a3.rotate_left(19) ^ a4.rotate_left(29) ^ a5.rotate_left(37))
+        }
+    };
+}
+/// value = high half of a widening multiply (rdx after `mul`), port = low half (rax)
+#[inline(never)]
+fn site_mul16(x: u64, y: u64) {
+    let m = (x as u128) * (y as u128);
+    let mut p = Port::<u16>::new(m as u64 as u16);
+    unsafe { p.write((m >> 64) as u64 as u16) };
+}
+#[inline(never)]
+fn site_mul8(x: u64, y: u64) {
+    let m = (x as u128) * (y as u128);
+    let mut p = Port::<u8>::new(m as u64 as u16);
+    unsafe { p.write((m >> 64) as u64 as u8) };
+}
+#[inline(never)]
+fn site_mul32(x: u64, y: u64) {
+    let m = (x as u128) * (y as u128);
+    let mut p = Port::<u32>::new(m as u64 as u16);
+    unsafe { p.write((m >> 64) as u64 as u32) };
+}
+
+site_w!(sw8_01, u8, 0, 1);
+site_w!(sw8_02, u8, 0, 2);
+site_w!(sw8_03, u8, 0, 3);
+site_w!(sw8_04, u8, 0, 4);
+site_w!(sw8_05, u8, 0, 5);
+site_w!(sw8_10, u8, 1, 0);
+site_w!(sw8_12, u8, 1, 2);
+site_w!(sw8_13, u8, 1, 3);
+site_w!(sw8_14, u8, 1, 4);
+site_w!(sw8_15, u8, 1, 5);
+site_w!(sw8_20, u8, 2, 0);
+site_w!(sw8_21, u8, 2, 1);
+site_w!(sw8_23, u8, 2, 3);
+site_w!(sw8_24, u8, 2, 4);
+site_w!(sw8_25, u8, 2, 5);
+site_w!(sw8_30, u8, 3, 0);
+site_w!(sw8_31, u8, 3, 1);
+site_w!(sw8_32, u8, 3, 2);
+site_w!(sw8_34, u8, 3, 4);
+site_w!(sw8_35, u8, 3, 5);
+site_w!(sw8_40, u8, 4, 0);
+site_w!(sw8_41, u8, 4, 1);
+site_w!(sw8_42, u8, 4, 2);
+site_w!(sw8_43, u8, 4, 3);
+site_w!(sw8_45, u8, 4, 5);
+site_w!(sw8_50, u8, 5, 0);
+site_w!(sw8_51, u8, 5, 1);
+site_w!(sw8_52, u8, 5, 2);
+site_w!(sw8_53, u8, 5, 3);
+site_w!(sw8_54, u8, 5, 4);
+site_w!(sw16_01, u16, 0, 1);
+site_w!(sw16_02, u16, 0, 2);
+site_w!(sw16_03, u16, 0, 3);
+site_w!(sw16_04, u16, 0, 4);
+site_w!(sw16_05, u16, 0, 5);
+site_w!(sw16_10, u16, 1, 0);
+site_w!(sw16_12, u16, 1, 2);
+site_w!(sw16_13, u16, 1, 3);
+site_w!(sw16_14, u16, 1, 4);
+site_w!(sw16_15, u16, 1, 5);
+site_w!(sw16_20, u16, 2, 0);
+site_w!(sw16_21, u16, 2, 1);
+site_w!(sw16_23, u16, 2, 3);
+site_w!(sw16_24, u16, 2, 4);
+site_w!(sw16_25, u16, 2, 5);
+site_w!(sw16_30, u16, 3, 0);
+site_w!(sw16_31, u16, 3, 1);
+site_w!(sw16_32, u16, 3, 2);
+site_w!(sw16_34, u16, 3, 4);
+site_w!(sw16_35, u16, 3, 5);
+site_w!(sw16_40, u16, 4, 0);
+site_w!(sw16_41, u16, 4, 1);
+site_w!(sw16_42, u16, 4, 2);
+site_w!(sw16_43, u16, 4, 3);
+site_w!(sw16_45, u16, 4, 5);
+site_w!(sw16_50, u16, 5, 0);
+site_w!(sw16_51, u16, 5, 1);
+site_w!(sw16_52, u16, 5, 2);
+site_w!(sw16_53, u16, 5, 3);
+site_w!(sw16_54, u16, 5, 4);
+site_w!(sw32_01, u32, 0, 1);
+site_w!(sw32_02, u32, 0, 2);
+site_w!(sw32_03, u32, 0, 3);
+site_w!(sw32_04, u32, 0, 4);
+site_w!(sw32_05, u32, 0, 5);
+site_w!(sw32_10, u32, 1, 0);
+site_w!(sw32_12, u32, 1, 2);
+site_w!(sw32_13, u32, 1, 3);
+site_w!(sw32_14, u32, 1, 4);
+site_w!(sw32_15, u32, 1, 5);
+site_w!(sw32_20, u32, 2, 0);
+site_w!(sw32_21, u32, 2, 1);
+site_w!(sw32_23, u32, 2, 3);
+site_w!(sw32_24, u32, 2, 4);
+site_w!(sw32_25, u32, 2, 5);
+site_w!(sw32_30, u32, 3, 0);
+site_w!(sw32_31, u32, 3, 1);
+site_w!(sw32_32, u32, 3, 2);
+site_w!(sw32_34, u32, 3, 4);
+site_w!(sw32_35, u32, 3, 5);
+site_w!(sw32_40, u32, 4, 0);
+site_w!(sw32_41, u32, 4, 1);
+site_w!(sw32_42, u32, 4, 2);
+site_w!(sw32_43, u32, 4, 3);
+site_w!(sw32_45, u32, 4, 5);
+site_w!(sw32_50, u32, 5, 0);
+site_w!(sw32_51, u32, 5, 1);
+site_w!(sw32_52, u32, 5, 2);
+site_w!(sw32_53, u32, 5, 3);
+site_w!(sw32_54, u32, 5, 4);
+site_r!(sr8_0, u8, 0);
+site_r!(sr8_1, u8, 1);
+site_r!(sr8_2, u8, 2);
+site_r!(sr8_3, u8, 3);
+site_r!(sr8_4, u8, 4);
+site_r!(sr8_5, u8, 5);
+site_r!(sr16_0, u16, 0);
+site_r!(sr16_1, u16, 1);
+site_r!(sr16_2, u16, 2);
+site_r!(sr16_3, u16, 3);
+site_r!(sr16_4, u16, 4);
+site_r!(sr16_5, u16, 5);
+site_r!(sr32_0, u32, 0);
+site_r!(sr32_1, u32, 1);
+site_r!(sr32_2, u32, 2);
+site_r!(sr32_3, u32, 3);
+site_r!(sr32_4, u32, 4);
+site_r!(sr32_5, u32, 5);
+
+fn regalloc_sites(r: &mut Rep) {
+    use std::hint::black_box as bb;
+    let argsets: [[u64; 6]; 3] = [
+        [0x0000_1111_0000_03f8, 0x0000_2222_0000_8421, 0x0000_3333_0000_0cf8, 0x0000_4444_0000_a55a, 0x0000_5555_0000_ffff, 0x0000_6666_0000_0001],
+        [0xfedc_ba98_7654_3210, 0x0123_4567_89ab_cdef, 0x9e37_79b9_7f4a_7c15, 0x0000_0000_ffff_0000, 0x8000_0000_0000_8000, 0x7fff_7fff_7fff_7fff],
+        [0, u64::MAX, 0x80, 0x8080_8080_8080_8080, 0x1_0000, 0xffff_fffe],
+    ];
+    let wsites: &[(&str, u32, usize, usize, fn([u64; 0], u64, u64, u64, u64, u64, u64) -> u64)] = &[
+        ("sw8_01", 8, 0, 1, sw8_01),
+        ("sw8_02", 8, 0, 2, sw8_02),
+        ("sw8_03", 8, 0, 3, sw8_03),
+        ("sw8_04", 8, 0, 4, sw8_04),
+        ("sw8_05", 8, 0, 5, sw8_05),
+        ("sw8_10", 8, 1, 0, sw8_10),
+        ("sw8_12", 8, 1, 2, sw8_12),
+        ("sw8_13", 8, 1, 3, sw8_13),
+        ("sw8_14", 8, 1, 4, sw8_14),
+        ("sw8_15", 8, 1, 5, sw8_15),
+        ("sw8_20", 8, 2, 0, sw8_20),
+        ("sw8_21", 8, 2, 1, sw8_21),
+        ("sw8_23", 8, 2, 3, sw8_23),
+        ("sw8_24", 8, 2, 4, sw8_24),
+        ("sw8_25", 8, 2, 5, sw8_25),
+        ("sw8_30", 8, 3, 0, sw8_30),
+        ("sw8_31", 8, 3, 1, sw8_31),
+        ("sw8_32", 8, 3, 2, sw8_32),
+        ("sw8_34", 8, 3, 4, sw8_34),
+        ("sw8_35", 8, 3, 5, sw8_35),
+        ("sw8_40", 8, 4, 0, sw8_40),
+        ("sw8_41", 8, 4, 1, sw8_41),
+        ("sw8_42", 8, 4, 2, sw8_42),
+        ("sw8_43", 8, 4, 3, sw8_43),
+        ("sw8_45", 8, 4, 5, sw8_45),
+        ("sw8_50", 8, 5, 0, sw8_50),
+        ("sw8_51", 8, 5, 1, sw8_51),
+        ("sw8_52", 8, 5, 2, sw8_52),
+        ("sw8_53", 8, 5, 3, sw8_53),
+        ("sw8_54", 8, 5, 4, sw8_54),
+        ("sw16_01", 16, 0, 1, sw16_01),
+        ("sw16_02", 16, 0, 2, sw16_02),
+        ("sw16_03", 16, 0, 3, sw16_03),
+        ("sw16_04", 16, 0, 4, sw16_04),
+        ("sw16_05", 16, 0, 5, sw16_05),
+        ("sw16_10", 16, 1, 0, sw16_10),
+        ("sw16_12", 16, 1, 2, sw16_12),
+        ("sw16_13", 16, 1, 3, sw16_13),
+        ("sw16_14", 16, 1, 4, sw16_14),
+        ("sw16_15", 16, 1, 5, sw16_15),
+        ("sw16_20", 16, 2, 0, sw16_20),
+        ("sw16_21", 16, 2, 1, sw16_21),
+        ("sw16_23", 16, 2, 3, sw16_23),
+        ("sw16_24", 16, 2, 4, sw16_24),
+        ("sw16_25", 16, 2, 5, sw16_25),
+        ("sw16_30", 16, 3, 0, sw16_30),
+        ("sw16_31", 16, 3, 1, sw16_31),
+        ("sw16_32", 16, 3, 2, sw16_32),
+        ("sw16_34", 16, 3, 4, sw16_34),
+        ("sw16_35", 16, 3, 5, sw16_35),
+        ("sw16_40", 16, 4, 0, sw16_40),
+        ("sw16_41", 16, 4, 1, sw16_41),
+        ("sw16_42", 16, 4, 2, sw16_42),
+        ("sw16_43", 16, 4, 3, sw16_43),
+        ("sw16_45", 16, 4, 5, sw16_45),
+        ("sw16_50", 16, 5, 0, sw16_50),
+        ("sw16_51", 16, 5, 1, sw16_51),
+        ("sw16_52", 16, 5, 2, sw16_52),
+        ("sw16_53", 16, 5, 3, sw16_53),
+        ("sw16_54", 16, 5, 4, sw16_54),
+        ("sw32_01", 32, 0, 1, sw32_01),
+        ("sw32_02", 32, 0, 2, sw32_02),
+        ("sw32_03", 32, 0, 3, sw32_03),
+        ("sw32_04", 32, 0, 4, sw32_04),
+        ("sw32_05", 32, 0, 5, sw32_05),
+        ("sw32_10", 32, 1, 0, sw32_10),
+        ("sw32_12", 32, 1, 2, sw32_12),
+        ("sw32_13", 32, 1, 3, sw32_13),
+        ("sw32_14", 32, 1, 4, sw32_14),
+        ("sw32_15", 32, 1, 5, sw32_15),
+        ("sw32_20", 32, 2, 0, sw32_20),
+        ("sw32_21", 32, 2, 1, sw32_21),
+        ("sw32_23", 32, 2, 3, sw32_23),
+        ("sw32_24", 32, 2, 4, sw32_24),
+        ("sw32_25", 32, 2, 5, sw32_25),
+        ("sw32_30", 32, 3, 0, sw32_30),
+        ("sw32_31", 32, 3, 1, sw32_31),
+        ("sw32_32", 32, 3, 2, sw32_32),
+        ("sw32_34", 32, 3, 4, sw32_34),
+        ("sw32_35", 32, 3, 5, sw32_35),
+        ("sw32_40", 32, 4, 0, sw32_40),
+        ("sw32_41", 32, 4, 1, sw32_41),
+        ("sw32_42", 32, 4, 2, sw32_42),
+        ("sw32_43", 32, 4, 3, sw32_43),
+        ("sw32_45", 32, 4, 5, sw32_45),
+        ("sw32_50", 32, 5, 0, sw32_50),
+        ("sw32_51", 32, 5, 1, sw32_51),
+        ("sw32_52", 32, 5, 2, sw32_52),
+        ("sw32_53", 32, 5, 3, sw32_53),
+        ("sw32_54", 32, 5, 4, sw32_54),
+    ];
+    let rsites: &[(&str, u32, usize, fn(u64, u64, u64, u64, u64, u64) -> (u64, u64))] = &[
+        ("sr8_0", 8, 0, sr8_0),
+        ("sr8_1", 8, 1, sr8_1),
+        ("sr8_2", 8, 2, sr8_2),
+        ("sr8_3", 8, 3, sr8_3),
+        ("sr8_4", 8, 4, sr8_4),
+        ("sr8_5", 8, 5, sr8_5),
+        ("sr16_0", 16, 0, sr16_0),
+        ("sr16_1", 16, 1, sr16_1),
+        ("sr16_2", 16, 2, sr16_2),
+        ("sr16_3", 16, 3, sr16_3),
+        ("sr16_4", 16, 4, sr16_4),
+        ("sr16_5", 16, 5, sr16_5),
+        ("sr32_0", 32, 0, sr32_0),
+        ("sr32_1", 32, 1, sr32_1),
+        ("sr32_2", 32, 2, sr32_2),
+        ("sr32_3", 32, 3, sr32_3),
+        ("sr32_4", 32, 4, sr32_4),
+        ("sr32_5", 32, 5, sr32_5),
+    ];
+    for a in argsets {
+        let keep = a[0] ^ a[1].rotate_left(7) ^ a[2].rotate_left(13) ^ a[3].rotate_left(19) ^ a[4].rotate_left(29) ^ a[5].rotate_left(37);
+        for &(n, bits, i, j, f) in wsites {
+            let mask: u64 = if bits == 32 { 0xffff_ffff } else { (1u64 << bits) - 1 };
+            let (rv, ev) = one(false, || f(bb([]), bb(a[0]), bb(a[1]), bb(a[2]), bb(a[3]), bb(a[4]), bb(a[5])));
+            r.ev(true);
+            r.transitions += ev.len() as u64;
+            if ev != [Ev::Out(a[i] as u16, bits as u8, (a[j] & mask) as u32)] || rv != Ok(keep) {
+                r.viol(&format!("C18|Port<u{}>::write|wrong-access-when-port-and-value-arrive-in-other-registers", bits), &format!("portsite {} args {:x?}", n, a), &format!("{:x?} expected Out({:#x}, {}, {:#x}); other values kept: {}", ev, a[i] as u16, bits, a[j] & mask, rv == Ok(keep)));
+            }
+        }
+        for &(n, bits, i, f) in rsites {
+            let mask: u64 = if bits == 32 { 0xffff_ffff } else { (1u64 << bits) - 1 };
+            cpu().port_in = 0xc3d2_e1f0;
+            let (rv, ev) = one(false, || f(bb(a[0]), bb(a[1]), bb(a[2]), bb(a[3]), bb(a[4]), bb(a[5])));
+            r.ev(true);
+            r.transitions += ev.len() as u64;
+            if ev != [Ev::In(a[i] as u16, bits as u8, (0xc3d2_e1f0u64 & mask) as u32)] || rv != Ok((0xc3d2_e1f0u64 & mask, keep)) {
+                r.viol(&format!("C18|Port<u{}>::read|wrong-access-or-clobbered-neighbour-when-the-port-arrives-in-another-register", bits), &format!("portsite {} args {:x?}", n, a), &format!("{:x?} {:x?}", ev, rv));
+            }
+        }
+    }
+    for (x, y) in [(0x1_0000_03f8u64, 0xabcd_0000_0000u64), (0xffff_ffff_ffff_ffff, 0xffff_ffff_ffff_ffff), (0x9e37_79b9_7f4a_7c15, 0xd1b5_4a32_d192_ed03), (3, 5)] {
+        let m = (x as u128) * (y as u128);
+        let (port, hi) = (m as u64 as u16, (m >> 64) as u64);
+        for (bits, f) in [(8u8, site_mul8 as fn(u64, u64)), (16, site_mul16), (32, site_mul32)] {
+            let mask: u64 = if bits == 32 { 0xffff_ffff } else { (1u64 << bits) - 1 };
+            let (_, ev) = one(false, || f(bb(x), bb(y)));
+            r.ev(true);
+            if ev != [Ev::Out(port, bits, (hi & mask) as u32)] {
+                r.viol(&format!("C18|Port<u{}>::write|wrong-access-when-port-and-value-arrive-in-other-registers", bits), &format!("portsite mul{} {:#x} {:#x}", bits, x, y), &format!("{:x?} expected Out({:#x}, {}, {:#x})", ev, port, bits, hi & mask));
+            }
+        }
+    }
+}
+
 pub fn run(a: &Args) {
     crate::simcpu::init();
     let mut r = Rep::new("C18", "ports");
@@ -180,6 +493,8 @@ pub fn run(a: &Args) {
         fault_mode_on();
         if t[0] == "port" {
             port_case(&mut r, t[1].parse().unwrap(), t[4] == "true");
+        } else if t[0] == "portsite" {
+            regalloc_sites(&mut r);
         } else if t[0] == "portseq" {
             sequences(&mut r, t[1].parse().unwrap(), t[4] == "true");
         } else {
@@ -218,6 +533,7 @@ pub fn run(a: &Args) {
     if a.shard == 0 {
         guarded(&mut r, "C18|PartialEq/Clone|unexpected-panic", || "porteq".into(), |r| eq_clone(r));
         guarded(&mut r, "C18|Clone|unexpected-panic", || "portcloneaccess".into(), |r| clone_access(r));
+        guarded(&mut r, "C18|Port|unexpected-panic", || "portsite".into(), |r| regalloc_sites(r));
     }
     r.states = r.evals;
     r.exhaustive = true;
